@@ -1,4 +1,5 @@
 import Model.Compress
+import Proofs.Lemmas.Names
 import Mathlib.Tactic
 import Proofs.Audit
 set_option linter.unusedSimpArgs false
@@ -225,17 +226,85 @@ theorem C12_roundtrip (C : Codec) (hcodec : ∀ f m b, C.dec f m (C.enc f m b) =
     simp only [decompress, hf, huser, hcodec]
     simp
 
+/-! ## archive member names -/
+
+private theorem lstripDots_noDot (ext : List Char) (hd : '.' ∉ ext) : lstripDots ('.' :: ext) = ext := by
+  cases ext with
+  | nil => simp [lstripDots]
+  | cons x r =>
+    have hx : x ≠ '.' := by
+      intro h; subst h; exact hd (by simp)
+    rw [lstripDots]
+    unfold lstripDots
+    split
+    · rename_i heq
+      simp only [List.cons.injEq] at heq
+      exact absurd heq.1 hx
+    · rfl
+
+/-- **C12_member_names** — for every name of the form `base.ext` or `dir/base.ext` (any directory part, also with
+dots and further slashes; `base` without `/` and with at least one non-dot character; `ext` without `.` and `/` —
+in particular the four formats): the suffix is `ext`, and the zip member name written by `compress_as` equals the
+member name `decompress` asks for, namely `base` (which may itself contain dots: `a.b.c.zip ↦ a.b.c`).
+This discharges the hypothesis `hmember` of `C12_roundtrip` for all such names (`C12_roundtrip_names`). -/
+theorem C12_member_names (pre base ext : List Char) (hpre : pre = [] ∨ ∃ dir, pre = dir ++ ['/'])
+    (hs : '/' ∉ base) (hse : '/' ∉ ext) (hd : '.' ∉ ext) (hb : base.any (· ≠ '.') = true) :
+    let name := String.ofList (pre ++ (base ++ '.' :: ext))
+    fmtOfName name = String.ofList ext ∧
+    memberC name (String.ofList ext) = String.ofList base ∧
+    memberD name = String.ofList base := by
+  intro name
+  have hsl : '/' ∉ base ++ '.' :: ext := by
+    simp only [List.mem_append, List.mem_cons, not_or]
+    exact ⟨hs, by decide, hse⟩
+  have hsplit : splitext (pre ++ (base ++ '.' :: ext)) = (pre ++ base, '.' :: ext) := by
+    rcases hpre with rfl | ⟨dir, rfl⟩
+    · simpa using splitext_flat base ext hs hse hd hb
+    · have := splitext_dir dir base ext hs hse hd hb
+      simpa [List.append_assoc] using this
+  have hbase : basename (pre ++ (base ++ '.' :: ext)) = base ++ '.' :: ext := by
+    rcases hpre with rfl | ⟨dir, rfl⟩
+    · simpa using basename_flat _ hsl
+    · have := basename_dir dir (base ++ '.' :: ext) hsl
+      simpa [List.append_assoc] using this
+  have hbase2 : basename (pre ++ base) = base := by
+    rcases hpre with rfl | ⟨dir, rfl⟩
+    · simpa using basename_flat _ hs
+    · have := basename_dir dir base hs
+      simpa [List.append_assoc] using this
+  have hsuf : ext.isSuffixOf ('.' :: ext) = true := by
+    rw [List.isSuffixOf_iff_suffix]
+    exact List.suffix_cons _ _
+  refine ⟨?_, ?_, ?_⟩
+  · simp only [fmtOfName, name, String.toList_ofList, hsplit, lstripDots_noDot ext hd]
+  · simp only [memberC, name, String.toList_ofList, hbase, splitext_flat base ext hs hse hd hb, hsuf, if_true]
+  · simp only [memberD, name, String.toList_ofList, hsplit, hbase2]
+
+/-- `C12_roundtrip` without the member-name hypothesis for all names `base.ext` / `dir/base.ext` -/
+theorem C12_roundtrip_names (C : Codec) (hcodec : ∀ f m b, C.dec f m (C.enc f m b) = some b)
+    (pre base ext : List Char) (hpre : pre = [] ∨ ∃ dir, pre = dir ++ ['/'])
+    (hs : '/' ∉ base) (hse : '/' ∉ ext) (hd : '.' ∉ ext) (hb : base.any (· ≠ '.') = true)
+    (f : Fmt) (hf : Fmt.ofString? (String.ofList ext) = some f)
+    (b : Bytes) (st : St) (hfresh : Fresh st)
+    (hnodir : st.user (String.ofList (pre ++ (base ++ '.' :: ext))) ≠ some .dir) (body' : Body) :
+    let name := String.ofList (pre ++ (base ++ '.' :: ext))
+    let r1 := compress C name none none (writeBody b false) st
+    r1.2 = .ok ∧ r1.1.user name = some (.data (C.enc f (String.ofList base) b)) ∧ r1.1.tmp = st.tmp ∧
+    ∃ s2 : St, s2.tmp (tmpName r1.1.next) = some (.file b) ∧
+      decompress C name none body' r1.1 =
+        ({ (body' (tmpName r1.1.next) s2).1 with tmp := (body' (tmpName r1.1.next) s2).1.tmp.del (tmpName r1.1.next) },
+         if (body' (tmpName r1.1.next) s2).2 then .raised else .ok) := by
+  intro name r1
+  obtain ⟨h1, h2, h3⟩ := C12_member_names pre base ext hpre hs hse hd hb
+  have hf' : Fmt.ofString? (fmtOfName name) = some f := by rw [h1]; exact hf
+  have hm : memberC name (fmtOfName name) = memberD name := by rw [h1, h2, h3]
+  obtain ⟨a1, a2, a3, _, s2, a5, _, a7⟩ := C12_roundtrip C hcodec name none f hf' rfl hm b st hfresh hnodir body'
+  exact ⟨a1, by rw [← h3]; exact a2, a3, s2, a5, a7⟩
+
 /-
-NOT PROVED (partial): the hypothesis `hmember` of `C12_roundtrip` should be a lemma,
-
-  theorem memberC_eq_memberD (name : String) (f : Fmt) (hf : Fmt.ofString? (fmtOfName name) = some f) :
-      memberC name (fmtOfName name) = memberD name
-
-(the zip member name written by `compress_as` — basename of the target without its last extension — is the name
-`decompress` asks for — basename of the name without its last extension).  It needs index lemmas about
-`lastIndexOf` under `take`/`drop` that were not proved; it is evaluated on examples below
-(`C12_member_examples`) and compared with `ZipFile.namelist()` by the harness on every zip case.  For gz, bz2, xz the
-member name is irrelevant to the real codecs.
+Remaining gap (not proved): names outside the shape `[dir/]base.ext` above — e.g. a base consisting only of dots
+(then there is no suffix and the name passes through) — and `fmt=` given with a name whose suffix differs
+(then `memberC` keeps the full file name and `decompress` cannot find the format from the name at all).
 -/
 
 /-! ## non-vacuity and executable sanity tests -/
@@ -279,6 +348,6 @@ example : ∀ f m b, idCodec.dec f m (idCodec.enc f m b) = some b := fun _ _ _ =
 #guard (decompress idCodec "nothing.gz" none (idleBody false) st0).1.tmp "t0" == none
 
 assert_axioms C12_format_table C12_format_names C12_format_iff C12_passthrough C12_no_debris_compress
-  C12_no_debris_decompress C12_body_exception_preserves_target C12_roundtrip C12_member_examples under_temp
+  C12_no_debris_decompress C12_body_exception_preserves_target C12_roundtrip C12_member_names C12_roundtrip_names C12_member_examples under_temp
 
 end Compress
